@@ -29,6 +29,7 @@ type site struct {
 	File string `json:"file"`
 	Line int    `json:"line"`
 	Func string `json:"func"`
+	Text string `json:"text"` // first line of the statement the site stands in front of
 }
 
 var sites []site
@@ -88,7 +89,12 @@ func instrumentFile(path, rel string) error {
 	fset := token.NewFileSet()
 	// comments are dropped: go/ast keeps them by position and would weave them into the inserted calls;
 	// the instrumented packages carry no build constraints or compiler directives (checked by the driver)
-	f, err := parser.ParseFile(fset, path, nil, 0)
+	srcBytes, err := os.ReadFile(path)
+	if err != nil {
+		return err
+	}
+	srcLines := strings.Split(string(srcBytes), "\n")
+	f, err := parser.ParseFile(fset, path, srcBytes, 0)
 	if err != nil {
 		return err
 	}
@@ -96,7 +102,12 @@ func instrumentFile(path, rel string) error {
 	curFunc := ""
 	mk := func(pos token.Pos) ast.Stmt {
 		id := len(sites) + 1
-		sites = append(sites, site{ID: id, File: rel, Line: fset.Position(pos).Line, Func: curFunc})
+		ln := fset.Position(pos).Line
+		text := ""
+		if ln >= 1 && ln <= len(srcLines) {
+			text = strings.TrimSpace(srcLines[ln-1])
+		}
+		sites = append(sites, site{ID: id, File: rel, Line: ln, Func: curFunc, Text: text})
 		changed = true
 		return &ast.ExprStmt{X: &ast.CallExpr{
 			Fun:  &ast.SelectorExpr{X: ast.NewIdent("verifrt"), Sel: ast.NewIdent("P")},
@@ -189,6 +200,8 @@ var (
 	hot   [NSITES]bool
 	focus [NSITES]bool // sites inside the functions named by VERIF_PERTURB_FOCUS: always hot, act every second time
 	focusMaxUs uint64 = 2980 // longest focus sleep in microseconds (VERIF_PERTURB_FOCUS_MAXUS)
+	pause   [NSITES]bool // sites named by VERIF_PAUSE_SITES: every second pass waits VERIF_PAUSE_US (a stretched window)
+	pauseUs uint64 = 5000
 	hits  [NSITES]uint32
 	state uint64
 )
@@ -223,6 +236,14 @@ func init() {
 	if v, err := strconv.ParseUint(os.Getenv("VERIF_PERTURB_FOCUS_MAXUS"), 10, 64); err == nil && v > 20 {
 		focusMaxUs = v
 	}
+	if v, err := strconv.ParseUint(os.Getenv("VERIF_PAUSE_US"), 10, 64); err == nil && v > 0 {
+		pauseUs = v
+	}
+	for _, x := range strings.Split(os.Getenv("VERIF_PAUSE_SITES"), ",") {
+		if id, err := strconv.Atoi(x); err == nil && id > 0 && id < len(pause) {
+			pause[id] = true
+		}
+	}
 	if f := os.Getenv("VERIF_PERTURB_FOCUS"); f != "" {
 		for i := range focus {
 			for _, sub := range strings.Split(f, ",") {
@@ -242,6 +263,21 @@ func P(id int) {
 		return
 	}
 	hits[id]++
+	if pause[id] {
+		state ^= state << 13
+		state ^= state >> 7
+		state ^= state << 17
+		if state%2 == 0 {
+			if mode == 2 {
+				time.Sleep(time.Duration(pauseUs) * time.Microsecond)
+			} else {
+				for k := 0; k < 40; k++ {
+					runtime.Gosched()
+				}
+			}
+		}
+		return
+	}
 	if focus[id] {
 		state ^= state << 13
 		state ^= state >> 7
